@@ -40,6 +40,7 @@ def run(eng, ctx):
     # "a message with given repeat counts occupies exactly the number of bits ...": the definitions give the widths, the decoder has to take
     # exactly those bits - each field from its own window of the payload, the offset advanced by the field's width (C03-D1/D5, shared)
     DEC.field_values(eng, ctx, "C03.D1", "C03.D2", "C03.D3", "C03.D5")
+    SH.suffix_table_domain(eng, ctx, "C03.D4")  # "every identity that has a definition can be decoded": also with the largest group index its counters allow
     m = DEC.DecoderModel(eng)
     SH.derived_counts(eng, ctx, "C03.D9", labels=False)
     DEC.harmonic_counts(eng, ctx, "C03.D9b", m)
